@@ -121,6 +121,20 @@ def run(ctx):
                                "fwhm": int(round((right - left) * 1000)), "len": int(w.len()), "nbits": len(bits), "rxbits": rx, "bits": bits})
                 meta.append(("gauss", sps, Tw, m))
                 ctx.case(("gauss", sps % 2, sps > 16, Tw * 2 // sps, m), {"DAC-gaussian": {"sps": sps, "T": Tw, "m": m, "Vout": vout, "bias": bias}})
+    # ---- DAC(..., BW=B) is the low-pass filtered waveform (system behaviour beyond the listed clauses)
+    from opticomlib.devices import LPF
+    for it in range(10 if T else 4):
+        with warnings.catch_warnings():
+            warnings.simplefilter("ignore")
+            gv(sps=rnd.choice([8, 16]), R=1e9)
+        bits = [rnd.randrange(2) for _ in range(32)]
+        bw = rnd.uniform(0.3, 3.0) * 1e9
+        with deadline(60):
+            a = DAC(bits, 0.25, 1.5, "nrz", BW=bw).signal
+            b = LPF(DAC(bits, 0.25, 1.5, "nrz"), bw).signal
+        events.append({"kind": "eqwave", "ppt": int(min(10 ** 9, float(np.max(np.abs(a - b)) / max(np.max(np.abs(b)), 1e-300)) * 1e12))})
+        meta.append(("eqwave", "DAC(BW)=LPF(DAC)"))
+        ctx.case(("dac-bw", it))
     # ---- verdicts (one fault at a time)
     with warnings.catch_warnings():
         warnings.simplefilter("ignore")
